@@ -17,6 +17,16 @@ func (i Issue) String() string { return fmt.Sprintf("%s @%d: %s", i.Rule, i.Inst
 // Rules lists every rule id Validate can report, with a one line description.
 var Rules = map[string]string{}
 
+// RuleIDs returns the sorted rule ids.
+func RuleIDs() []string {
+	ids := make([]string, 0, len(Rules))
+	for id := range Rules {
+		ids = append(ids, id)
+	}
+	sort.Strings(ids)
+	return ids
+}
+
 func rule(id, desc string) string {
 	Rules[id] = desc
 	return id
